@@ -1,7 +1,7 @@
 (* HttpParseProofs.v -- C17: split_host_port, determine_target, parse_http_request and build_forward_request
    against the abstract syntax of Model/Http.v (per function, then composed). *)
 From Coq Require Import List NArith ZArith Lia Bool String.
-From AnyTLS Require Import Bytes BytesFacts Generated GeneratedFacts HttpText Http HttpTextFacts.
+From AnyTLS Require Import Bytes BytesFacts Generated FactsCore FactsHttp HttpText Http HttpTextFacts.
 Import ListNotations.
 Open Scope N_scope.
 Ltac Zify.zify_post_hook ::= Z.to_euclidean_division_equations.
